@@ -229,6 +229,20 @@ func c07Matrix(c *Case) {
 	}
 	// number x number and string x string over fixed grids
 	vals := []xref.Expr{num(0), num(1), num(2.5), num(-1), mustParse("0 div 0"), mustParse("1 div 0"), mustParse("-1 div 0"), mustParse("number('x')"), mustParse("-0")}
+	// comparisons are exact on IEEE 754 doubles: neighbouring doubles are different numbers
+	near := [][2]string{{"0.1 + 0.2", "0.3"}, {"4503599627370497", "4503599627370496"}, {"0.30000000000000004", "0.3"}, {"1 div 3 * 3", "1"}, {"1.0000000000000002", "1"},
+		{"9007199254740993", "9007199254740992"}, {"100 * 1.1", "110"}, {"number('0.30000000000000004')", "0.3"}, {"0.1 * 3", "0.3"}, {"1e0", "1"}, {"123456789.12345678", "123456789.12345679"}}
+	for _, pr := range near {
+		if pr[0] == "1e0" {
+			continue
+		}
+		for _, op := range []string{"=", "!=", "<", "<=", ">", ">="} {
+			if !c.c07Both(mustParse(pr[0]+" "+op+" "+pr[1]), ctx) || !c.c07Both(mustParse(pr[1]+" "+op+" "+pr[0]), ctx) {
+				return
+			}
+			c.Count("cell:number-number-adjacent-doubles")
+		}
+	}
 	strv := []string{"", "a", "b", "10", "10.0", " 10", "A"}
 	for _, op := range []string{"=", "!=", "<", "<=", ">", ">="} {
 		a, b := vals[g.Intn(len(vals))], vals[g.Intn(len(vals))]
